@@ -340,6 +340,49 @@ fn run_pd(prop: &str, mut t: Tape) -> CaseOutcome {
         return finish(out, &w, th);
     }
 
+    // C08: the typestate also lets a PRE-OP group go to OP through configure_dc_sync() without an
+    // explicit into_pre_op_pdi(); the layout clauses must hold on that route too.
+    if c08 && n_groups == 1 && has_dc_ref && w.sim.tape.flag(1, 6, "dc_sync_directly_from_preop") {
+        out.probes.insert("route_configure_dc_sync_from_preop".into(), 1);
+        // Half of these runs use devices that do not verify their sync manager set-up on the way to
+        // SAFE-OP (many simple ESC-only terminals do not), so that an unconfigured layout shows up as
+        // what the property talks about - a group in OP with wrong windows - and not only as a refusal.
+        if w.sim.tape.flag(1, 2, "lenient_devices") {
+            for d in w.sim.seg.devices.iter_mut() {
+                d.strict_config = false;
+            }
+        }
+        let g = match w.sim.block_on(g0.configure_dc_sync(md, dc_conf)) {
+            Ok(Ok(g)) => g,
+            Ok(Err(e)) => {
+                out.violations.push(viol("dc-config-failed", format!("configure_dc_sync failed with {:?}", e)));
+                return finish(out, &w, th);
+            }
+            Err(e) => {
+                out.violations.push(sim_error_violation("configure_dc_sync", &e));
+                return finish(out, &w, th);
+            }
+        };
+        match w.sim.block_on(g.into_op(md)) {
+            Ok(Ok(g)) => {
+                structural(&mut out, &w, &specs, &exp, &members(0), &g, md, 0);
+                // The route is part of the failing class only for the clause that depends on it.
+                if let Some(v) = out.violations.first_mut() {
+                    if v.clause == "window-length-wrong" {
+                        v.signature = format!("{}+dc-sync-from-preop", v.signature);
+                    }
+                }
+            }
+            Ok(Err(e)) => {
+                let mut v = viol("configuration-refused", format!("PRE-OP group -> configure_dc_sync -> into_op failed with {:?}", e));
+                v.signature = "configuration-refused+dc-sync-from-preop".into();
+                out.violations.push(v);
+            }
+            Err(e) => out.violations.push(sim_error_violation("into_op", &e)),
+        }
+        out.nontrivial = exp.io.iter().map(|e| e.0 + e.1).sum::<usize>() > 0;
+        return finish(out, &w, th);
+    }
     let og0 = to_op!(g0, 0);
     let og1 = if n_groups > 1 && out.violations.is_empty() { to_op!(g1, 1) } else { None };
     let og2 = if n_groups > 2 && out.violations.is_empty() { to_op!(g2, 2) } else { None };
